@@ -21,15 +21,14 @@ PROPS = {
     "C08": {
         "verus_units": ["state_tree"],
         "replay": "state_tree",
-        "floor": {"obligations": 50},
-        "trusted_base": ST_TRUSTED,
+        "floor": {"obligations": 55},
+        "trusted_base": ST_TRUSTED + ["update_state_storage: the error type Box<dyn std::error::Error> is erased to () (Verus has no dyn Error; the function never constructs an error)"],
         "assumptions": [
             "precondition `fits`: the mathematical size of each layout is <= usize::MAX (a layout that does not fit cannot be allocated)",
             "HashSet iteration order is arbitrary: proved irrelevant (lemma_apply_pointwise) rather than assumed",
         ],
         "not_covered": [
             "second sentence of C08 (completeness: every surviving subtree is carried over): needs optimality of the f64 score DP, uninterpreted in Verus; it is FALSE on the current tree, see known finding F1",
-            "update_state_storage (10-line composition of build + apply returning Box<dyn Error>) is read off, not verified",
             "SizedType::word_size for mir::StateType (calls the type interner): assumed to be a pure function of the value",
         ],
         "explanation": "C08 clauses a-f are postconditions of build_patches_recursive / take_diff / build_state_storage_patch_plan / apply_patches / apply_state_storage_patch_plan (plan_ok, plan_wf, apply_seq, lemma_apply_pointwise); discharged for all layouts of any size and arity.",
